@@ -6,6 +6,7 @@ package gmars
 // spacing and EQU placement.
 
 func init() {
+	vHarness["C03_labels"] = VerifHarness_C03_labels
 	vHarness["C03_symbols"] = VerifHarness_C03_symbols
 	vHarness["C03_text"] = VerifHarness_C03_text
 }
@@ -132,6 +133,95 @@ func VerifHarness_C03_symbols() {
 	vAssert("metadata-captured", w.Name == "Probe" && w.Author == "Ann Author")
 	vObserve("start", uint64(w.Start))
 	vObserve("a0", uint64(w.Code[0].A))
+	vReach("end")
+}
+
+// labels inside expressions: a label stands for its (signed) offset from the
+// referring instruction, also under / and %, directly or through an EQU
+// defined after its use; a label on (or alone before) the END line stands
+// for the address just past the last instruction
+func VerifHarness_C03_labels() {
+	cfg := ConfigNOP94
+	M := cfg.CoreSize
+	k0 := vPick("k0", 0, 1) // instructions before label a
+	k1 := vPick("k1", 0, 2) // instructions between a and the referring line
+	form := vParam("form")
+	tailForm := vPick("tail", 0, 3) // 0 no END label, 1 on the END line, 2 alone before END, 3 alone with colon
+	endArg := vPick("endArg", 0, 1) == 1
+	lineB := k0 + 1 + k1
+	n := lineB + 2
+	ra := k0 - lineB // offset of a seen from the referring line (negative)
+	rc := n - 1 - lineB
+	var exprA []token
+	wantA := 0
+	switch form {
+	case 0:
+		exprA, wantA = []token{tText("a"), tSym("/"), tNum(2)}, ra/2
+	case 1:
+		exprA, wantA = []token{tText("a"), tSym("%"), tNum(3)}, ra%3
+	case 2:
+		exprA, wantA = []token{{tokParenL, "("}, tText("a"), tSym("-"), tNum(1), {tokParenR, ")"}, tSym("/"), tNum(2)}, (ra-1)/2
+	case 3:
+		exprA, wantA = []token{tText("half")}, ra/2 // half equ a/2, defined below
+	case 4:
+		exprA, wantA = []token{tNum(7), tSym("*"), tText("c"), tSym("/"), tNum(2), tSym("-"), tText("a"), tSym("*"), tNum(3)}, 7*rc/2-ra*3
+	default:
+		exprA, wantA = []token{tText("c"), tSym("-"), tText("a")}, rc-ra
+	}
+	var t []token
+	for i := 0; i < k0; i++ {
+		t = append(t, tText("nop"), tNum(0), tNL)
+	}
+	t = append(t, tText("a"), tText("dat"), tSym("#"), tNum(0), tComma, tSym("#"), tNum(0), tNL)
+	for i := 0; i < k1; i++ {
+		t = append(t, tText("nop"), tNum(0), tNL)
+	}
+	t = append(t, tText("b"), tText("mov.i"), tSym("#"))
+	t = append(t, exprA...)
+	t = append(t, tComma, tSym("#"))
+	wantB := 0
+	if tailForm != 0 {
+		t = append(t, tText("tail"))
+		wantB = n - lineB
+	} else {
+		t = append(t, tNum(0))
+	}
+	t = append(t, tNL)
+	t = append(t, tText("c"), tText("dat"), tSym("#"), tNum(0), tComma, tSym("#"), tNum(0), tNL)
+	if form == 3 {
+		t = append(t, tText("half"), tText("equ"), tText("a"), tSym("/"), tNum(2), tNL)
+	}
+	switch tailForm {
+	case 1:
+		t = append(t, tText("tail"))
+	case 2:
+		t = append(t, tText("tail"), tNL)
+	case 3:
+		t = append(t, tText("tail"), token{tokColon, ":"}, tNL)
+	}
+	t = append(t, tText("end"))
+	start := 0
+	if endArg {
+		t = append(t, tText("b"))
+		start = lineB
+	}
+	t = append(t, tNL, token{tokEOF, ""})
+	vUnwind(400)
+	w, err := vCompileTokens(t, cfg)
+	vUnwind(64)
+	vAssert("well-formed-program-assembles", err == nil)
+	if err != nil {
+		return
+	}
+	vAssert("denoted-length", len(w.Code) == n)
+	if len(w.Code) != n {
+		return
+	}
+	vAssert("label-expression-value", w.Code[lineB].A == vReduce(wantA, M))
+	vAssert("end-label-value", w.Code[lineB].B == vReduce(wantB, M))
+	vAssert("denoted-entry-point", w.Start == start)
+	vObserve("a", uint64(w.Code[lineB].A))
+	vObserve("b", uint64(w.Code[lineB].B))
 	vReach("end")
 }
 
